@@ -127,6 +127,33 @@ def janusLine (toks : List String) : String :=
     | _, _, _ => "bad-op"
   | _ => "bad-op"
 
+/-- `janus1 <order> <scale_pos> <scale_vel> <G> <softening> <dt> <N> (m x y z vx vy vz as int64 hex)*N`:
+    one step from a given grid state (used to compare single steps within a grid tolerance when a
+    refactoring of the C code changed the rounding of an increment) -/
+def parsePartsI : List String → List (Float × PInt)
+  | m :: x :: y :: z :: vx :: vy :: vz :: r =>
+    let i (t : String) : I64 := BitVec.ofNat 64 ((parseHex t).getD 0)
+    (fl m, ⟨i x, i y, i z, i vx, i vy, i vz⟩) :: parsePartsI r
+  | _ => []
+
+def janus1Line (toks : List String) : String :=
+  match toks with
+  | order :: sp :: sv :: g :: soft :: dt :: _n :: ptoks =>
+    match order.toNat? with
+    | some order =>
+      match schemeOfOrder order with
+      | some sch =>
+        let parts := parsePartsI ptoks
+        let ms := (parts.map Prod.fst).toArray
+        let soft := fl soft
+        let cfg : Cfg Float := ⟨fl sp, fl sv, gravityBasic (fl g) (soft*soft) ms⟩
+        match step cfg sch (fl dt) (parts.map Prod.snd) with
+        | none => "err"
+        | some st => " ".intercalate ((st.flatMap (fun p => [p.x, p.y, p.z, p.vx, p.vy, p.vz])).map hxI)
+      | none => "bad-order"
+    | none => "bad-op"
+  | _ => "bad-op"
+
 /-! ### leapfrog -/
 open RV.Reversal in
 def recL (s : List (LfP Float)) : String :=
@@ -193,6 +220,7 @@ def lawsLine (toks : List String) : String :=
 def dispatch (toks : List String) : String :=
   match toks with
   | "janus" :: r => janusLine r
+  | "janus1" :: r => janus1Line r
   | "leapfrog" :: r => leapfrogLine r
   | "trunc" :: r => truncLine r
   | "laws" :: r => lawsLine r
